@@ -68,6 +68,16 @@ CLAIMS = {
             'real valid documents with injected hostile values must survive X12 -> XML -> X12.',
             'Trusted: CrossHair, z3, expat, the path-difference reference. Node pairs limited to a representative set of the 837P 4010 / 997 (835) maps.',
             'DESIGN.md §5 C08'),
+    'C09': ('other', 'bounded symbolic execution (CrossHair+z3) of X12ContextReader.iter_segments over real documents with the requested loop id as symbolic choice',
+            'For each document the reader is run for None and for every segment-anchored loop id of its map paths; the yielded nodes and trees are compared with a reference partition '
+            'computed independently from the validator\'s (segment, matched node) callback: order, no loss/duplication, instance boundaries, arrangement under child loops, positions and lines.',
+            'Trusted: CrossHair, z3, the validator callback as reference. The documents are concrete (3 quick, 7 thorough); the symbolic input is only the loop id, so this is the weakest kind of obligation (choice enumeration under the tracer).',
+            'DESIGN.md §5 C09'),
+    'C10': ('other', 'bounded symbolic execution (CrossHair+z3): insertion-index lemma over symbolic positions/ids/deleted-marks + editing laws on real trees with symbolic operation choice and values',
+            'The insertion index is proved (within 2..4 children) to keep live children ordered by map position with arrival order among equals, whatever deleted nodes are present; '
+            'set/get, exists/count/first/select, delete, add_segment/add_loop and copy are checked on real claim trees against serialisation-level frame conditions.',
+            'Trusted: CrossHair, z3, the harness-side clone and serialisation. Real trees: the 2300 loops of two 837 test documents.',
+            'DESIGN.md §5 C10'),
 }
 
 NOT_YET = 'check not built yet in this round (planned: see DESIGN.md §5)'
